@@ -400,6 +400,20 @@ pub fn c10(vindex: bool, ties: bool) -> PropDef<Case> {
     )
 }
 
+/// Finite retention under the controlled clock: versions older than the retention window MAY be dropped by a compaction,
+/// versions inside it (and the newest write of a key) must be there, erased versions never come back.
+pub fn c10_retention(vindex: bool) -> PropDef<Case> {
+    model_prop(
+        "C10",
+        "exploration",
+        "finite-retention stream: retention 50 / 500 (or unlimited) under the harness clock, AdvanceClock steps between the writes, timestamps taken from that clock; otherwise as the main stream without ties. Oracle: a version whose age (clock now - timestamp) is within the retention window, or which is the newest write of its key, must be listed / decide get_at; an older one may be missing (get_at is then undetermined); a version below a hard delete or replace never appears. Non-trivial: a get_at was left undetermined by retention (a version had left the window) after >= 1 compaction and a key with >= 3 versions was traversed.",
+        COMMON_ASSUMPTIONS,
+        c10_profile(Some(vindex), true),
+        ExecOpts { judge_rejections: false, versioned_sweep: true, single_write_per_key: true, final_reopen: true, no_ties: true, ..ExecOpts::default() },
+        |s, _| s.has("history_ge3") && s.has("get_at_undetermined_retention") && s.has("compactions"),
+    )
+}
+
 /// Back-dated writes (README: allowed with the version index): a later commit carries an OLDER timestamp than an
 /// existing version of the key. Only plain sets, only `get_at` is judged (greatest timestamp not above T).
 pub fn c10_backdated() -> PropDef<Case> {
